@@ -87,6 +87,21 @@ func genOpts(r *rand.Rand) *neat.Options {
 	o.MateSinglepointProb = 0.05 + r.Float64()
 	o.MateOnlyProb = r.Float64()
 	o.RecurOnlyProb = r.Float64() * pick(r, 0.0, 0.3, 1.0)
+	// probabilities of exactly 0 and exactly 1 are inside the documented ranges too
+	snap := func(p *float64) {
+		switch r.Intn(14) {
+		case 0:
+			*p = 0
+		case 1:
+			*p = 1
+		}
+	}
+	for _, p := range []*float64{&o.TraitParamMutProb, &o.MutateOnlyProb, &o.MutateRandomTraitProb, &o.MutateLinkTraitProb, &o.MutateNodeTraitProb,
+		&o.MutateLinkWeightsProb, &o.MutateToggleEnableProb, &o.MutateGeneReenableProb, &o.MutateAddNodeProb, &o.MutateAddLinkProb,
+		&o.MutateConnectSensors, &o.InterspeciesMateRate, &o.MateMultipointProb, &o.MateMultipointAvgProb, &o.MateSinglepointProb,
+		&o.MateOnlyProb, &o.RecurOnlyProb} {
+		snap(p)
+	}
 	o.PopSize = pick(r, 3, 4, 5, 8, 13, 20, 33, 50, 80, 120, 150)
 	o.DropOffAge = 1 + r.Intn(20)
 	o.NewLinkTries = 1 + r.Intn(40)
